@@ -21,6 +21,7 @@ const preludeBody = `(declare-datatypes ((Path 0)) (((PNil) (PFld (pfp Path) (pf
 (define-fun nilslice () Slice (mkslice nilptr 0 0 0))
 (declare-datatypes ((Iface 0)) (((mkiface (ityp Int) (ival Ptr)))))
 (define-fun niliface () Iface (mkiface 0 nilptr))
+(declare-fun tyof (Int Path) Int)
 (declare-sort Str 0)
 (declare-fun strlen (Str) Int)
 (declare-fun strat (Str Int) Int)
